@@ -42,7 +42,8 @@ class Probe:
         return [e[1] for e in self.log if e[0] == name and e[1] != "RAISE"]
 
 
-def random_system(rng, d, kind, probe=None, tshift=0.0, n_lind=None):
+def random_system(rng, d, kind, probe=None, tshift=0.0, n_lind=None,
+                  switch_on=None):
     """kind: 'const' | 'td'. Returns dict with the oqupy system, a reference
     Liouvillian function liou(t) (own implementation), flag td.
     tshift: the explicit time dependence is f(t - tshift)."""
@@ -65,6 +66,14 @@ def random_system(rng, d, kind, probe=None, tshift=0.0, n_lind=None):
         return h0 + np.cos(w * (t - tshift) + phi) * h1
 
     def gfun(k):
+        if switch_on is not None:
+            # a rate that is switched on at t_on: the literal 0 (an int)
+            # before, a float afterwards
+            def g(t):
+                if (t - tshift) < switch_on:
+                    return 0
+                return g0[k] * (1.0 + 0.5 * np.sin(nu[k] * (t - tshift)))
+            return g
         return lambda t: g0[k] * (1.0 + 0.5 * np.sin(nu[k] * (t - tshift)))
 
     def afun(k):
